@@ -776,4 +776,113 @@ theorem tr_copyMap (n : Nat) (g : Env) (H : Heap) (a : Nat) (o : MapObj) (ho : h
   simp [heapSet]
 
 
+/-! ## `matchWithBindingss` (relative to what `Match` does on one bindings map) -/
+
+theorem find_mwb : findFn matchProg ".matchWithBindingss" = some matchProg_MmatchWithBindingss := by rfl
+
+def mwbBody : List GS :=
+  match matchProg_MmatchWithBindingss.body with
+  | [_, GS.range _ _ _ _ body, _] => body
+  | _ => []
+
+theorem mwb_shape : matchProg_MmatchWithBindingss.body =
+    [GS.assign true [GL.var "acc"] [GE.call "makeslice" [GE.lit (GV.str "[]Bindings"), GE.lit (GV.int 0)]],
+     GS.range "" "_" "bs" (GE.var "bss") mwbBody,
+     GS.ret [GE.var "acc", GE.lit GV.nil]] := by rfl
+
+/-- `matchWithBindingss`, given what `Match` does on one bindings map (`M`): the results in order,
+    a nil result skipped, the first error handed back with a nil result -/
+def mwbSpec (M : GV → Heap → R (List GV × Heap)) : List GV → List GV → Heap → R (Flow × List GV × Heap)
+  | [], acc, H => .ok (.next, acc, H)
+  | b :: bs, acc, H =>
+    match M b H with
+    | .error e => .error e
+    | .ok ([r, .nil], H') =>
+      (match r with
+       | .nil => mwbSpec M bs acc H'
+       | .slice xs => mwbSpec M bs (acc ++ xs) H'
+       | _ => .error (.stuck "append..."))
+    | .ok ([_, e], H') => .ok (.ret [.nil, e], acc, H')
+    | .ok _ => .error (.stuck "assignment count")
+
+theorem mwb_loop (g : Env) (m p f x0 : GV) (M : GV → Heap → R (List GV × Heap)) (K : Nat)
+    (hM : ∀ k, K ≤ k → ∀ b H, callFn k matchProg g ".Match" m [p, f, b] H = M b H) :
+    ∀ (items : List (GV × GV)) (n : Nat) (acc : List GV) (H : Heap),
+    loopR (n + K + items.length + 30) matchProg g
+        [("acc", .slice acc), ("m", m), ("bss", x0), ("pattern", p), ("fact", f)] H "" "_" "bs" items mwbBody =
+      (match mwbSpec M (items.map (·.2)) acc H with
+       | .error e => .error e
+       | .ok (fl, acc', H') => .ok (fl, [("acc", .slice acc'), ("m", m), ("bss", x0), ("pattern", p), ("fact", f)], H')) := by
+  intro items
+  induction items with
+  | nil => intro n acc H; simp [loopR, mwbSpec]
+  | cons it items ih =>
+    intro n acc H
+    obtain ⟨ik, b⟩ := it
+    simp only [List.map_cons, mwbSpec]
+    have hcall : ∀ j, callFn (n + K + (items.length + 1) + j) matchProg g ".Match" m [p, f, b] H = M b H :=
+      fun j => hM _ (by omega) b H
+    simp [-callFn, loopR, mwbBody, matchProg_MmatchWithBindingss]
+    rw [hcall 25]
+    cases hm : M b H with
+    | error e => simp
+    | ok r =>
+      obtain ⟨vs, H'⟩ := r
+      match vs with
+      | [] => simp
+      | [_] => simp
+      | _ :: _ :: _ :: _ => simp
+      | [r, e] =>
+        have hi := ih n
+        simp only [mwbBody, matchProg_MmatchWithBindingss] at hi
+        cases e with
+        | nil =>
+          cases r with
+          | nil =>
+            simp [-callFn]
+            rw [show n + K + (items.length + 1) + 29 = n + K + items.length + 30 by omega]
+            exact hi acc H'
+          | slice xs =>
+            simp [-callFn, sliceElems]
+            rw [show n + K + (items.length + 1) + 29 = n + K + items.length + 30 by omega]
+            have hacc : (if acc = [] ∧ xs = [] then GV.slice acc else GV.slice (acc ++ xs)) = GV.slice (acc ++ xs) := by
+              split
+              · next h => rw [h.1, h.2]; rfl
+              · rfl
+            rw [hacc]
+            exact hi (acc ++ xs) H'
+          | _ => simp [-callFn, sliceElems]
+        | _ => simp [-callFn]
+
+theorem mwb_params : matchProg_MmatchWithBindingss.params = ["bss", "pattern", "fact"] ∧
+    matchProg_MmatchWithBindingss.recv = "m" ∧ matchProg_MmatchWithBindingss.variadic = false := ⟨rfl, rfl, rfl⟩
+
+/-- the translated `matchWithBindingss`, given what `Match` does on one bindings map: `Match` is
+    called once per bindings map, in order, on the heap the previous call left; the first error ends
+    the loop and comes back with a nil result; nil results are skipped; the others are appended in
+    order -/
+theorem tr_matchWithBindingss (n K : Nat) (g : Env) (m p f : GV) (H : Heap) (bss : List GV)
+    (M : GV → Heap → R (List GV × Heap))
+    (hM : ∀ k, K ≤ k → ∀ b H, callFn k matchProg g ".Match" m [p, f, b] H = M b H) :
+    callFn (n + K + bss.length + 40) matchProg g ".matchWithBindingss" m [.slice bss, p, f] H =
+      (match mwbSpec M bss [] H with
+       | .error e => .error e
+       | .ok (.next, acc, H') => .ok ([.slice acc, .nil], H')
+       | .ok (.ret vs, _, H') => .ok (vs, H')
+       | .ok _ => .error (.stuck "break/continue left a function")) := by
+  obtain ⟨items, hitems, hsnd, hlen⟩ := rangeItems_slice_snd H bss
+  have hl := mwb_loop g m p f (.slice bss) M K hM items (n + 6) [] H
+  rw [hsnd] at hl
+  rw [show n + K + bss.length + 40 = (n + K + bss.length + 39) + 1 from rfl]
+  simp only [callFn, find_mwb]
+  simp only [mwb_shape]
+  simp [-callFn, mwb_params.1, mwb_params.2.1, mwb_params.2.2, hitems]
+  rw [show n + K + bss.length + 36 = n + 6 + K + items.length + 30 by omega, hl]
+  cases mwbSpec M bss [] H with
+  | error e => simp
+  | ok r =>
+    obtain ⟨fl, acc, H'⟩ := r
+    cases fl <;> simp
+
+
 end Sheens.TrMatch
